@@ -521,7 +521,28 @@ func c13Encrypted(c *Ctx) {
 							src, si := guard.CallOf(hc.Call.Args[0])
 							forwardsErr := len(ret.Results) == 2 && func() bool { ec, ei := guard.CallOf(ret.Results[1]); return ec == hc && ei == 1 }()
 							all, some := src == call && si == 0 && forwardsErr, false
+							// the helper may also take Decrypt's error: then each of its success
+							// returns is reached only where that parameter is nil
+							errPrm := -1
+							for ai, a := range hc.Call.Args {
+								if ec, ei := guard.CallOf(a); ec == call && ei == 1 && guard.IsErrorType(a.Type()) && ai < len(h.Params) {
+									errPrm = ai
+								}
+							}
+							errChecked := errPrm >= 0
 							for _, hr := range guard.SuccessReturns(h) {
+								if errPrm >= 0 {
+									nilHere := false
+									for _, fct := range guard.BlockFacts(hr.Block()) {
+										if op, x, y, isC := guard.Cmp(fct); isC && op == token.EQL &&
+											((guard.IsNilConst(y) && x == ssa.Value(h.Params[errPrm])) || (guard.IsNilConst(x) && y == ssa.Value(h.Params[errPrm]))) {
+											nilHere = true
+										}
+									}
+									if !nilHere {
+										errChecked = false
+									}
+								}
 								good := false
 								for _, uc := range callsTo(h, "google.golang.org/protobuf/proto.Unmarshal") {
 									ucc := uc.Common()
@@ -540,6 +561,9 @@ func c13Encrypted(c *Ctx) {
 							}
 							if all && some {
 								okFlow = true
+								if errChecked {
+									okErr = true
+								}
 							}
 						}
 					}
